@@ -209,7 +209,8 @@ def summarize(fn, exceptional=False, extra_forward=None, roles=None, inline=None
                     c = None if (do_inline or no_forward) else (classify_forward(f, t) or (extra_forward(f, t) if extra_forward else None))
                     if c:
                         kind, target, args, via = c
-                        fc = FwdCall(kind, env.c(target), {r: env.c(a) for r, a in args.items()}, t, e, via)
+                        rc = lambda x: sym.canon(resolve_ternaries(env.subst(x), conds, roles), roles)
+                        fc = FwdCall(kind, rc(target), {r: rc(a) for r, a in args.items()}, t, e, via)
                         fwd_ids[(f.key, t['id'])] = len(fwds)
                         fwds.append(fc)
                     else:
@@ -230,15 +231,15 @@ def summarize(fn, exceptional=False, extra_forward=None, roles=None, inline=None
                                 step_path(f, p, idx, env2, init_vals, depth, st2, cont)
                             run_fn(callee, binds, depth + 1, (conds, fwds, calls, fwd_ids, callvals, meta), after)
                             return
-                        calls.append((env.c(t), t, e, len(fwds)))
+                        calls.append((sym.canon(resolve_ternaries(env.subst(t), conds, roles), roles), t, e, len(fwds)))
                 elif t is not None and t.get('k') in ('construct', 'new', 'delete'):
-                    calls.append((env.c(t), t, e, len(fwds)))
+                    calls.append((sym.canon(resolve_ternaries(env.subst(t), conds, roles), roles), t, e, len(fwds)))
                 if e['ev'] == 'return' and e.get('e') is not None:
                     ret_term = env.subst(e['e'])
                 if e['ev'] == 'init' and depth == 0 and not e.get('implicit'):
                     tgt = ('this.' + e['field']) if e.get('field') else ('base:' + strip_ns(e.get('base', 'delegating')))
                     meta.setdefault('writes', []).append((tgt, env.c(e['e']), e, len(fwds), len(calls)))
-                if e['ev'] in ('assign', 'incdec') and depth == 0:
+                if e['ev'] in ('assign', 'incdec'):        # also inside inlined helpers: the location is named in the caller's terms
                     rhs = env.c(e['rhs']) if 'rhs' in e else e['op']
                     meta.setdefault('writes', []).append((sym.canon(sym.strip_casts(env.subst_lvalue(e['lhs'])), roles) if sym.strip_casts(e['lhs']).get('k') == 'member' else env.lvalue_key(e['lhs']) if sym.strip_casts(e['lhs']).get('k') not in ('local', 'param') else env.c(e['lhs']), rhs, e, len(fwds), len(calls)))
                 env.step(it)
@@ -253,8 +254,18 @@ def summarize(fn, exceptional=False, extra_forward=None, roles=None, inline=None
                     continue
                 if len(it) > 4 and it[4] in ('ForStmt', 'WhileStmt', 'DoStmt', 'CXXForRangeStmt'):
                     continue    # loop trip conditions do not select the forwarding call
-                conds.append((env.c(cond), taken))
-                meta.setdefault('cond_terms', []).append((env.subst(cond), taken))
+                # (A || B) not taken means neither holds, (A && B) taken means both hold: record the atoms, so that a guard keeps
+                # its meaning when it is written as one expression or returned by a helper
+                resolved = resolve_ternaries(env.subst(cond), conds, roles)
+                ct2 = const_truth(resolved)
+                if ct2 is not None:
+                    # decided by an earlier branch of this very path (p = c ? nullptr : f(); if (!p) ...)
+                    if ct2 != taken:
+                        return
+                    continue
+                for ct, tk in split_condition(resolved, taken):
+                    conds.append((sym.canon(ct, roles), tk))
+                    meta.setdefault('cond_terms', []).append((ct, tk))
             elif it[0] == 'throw':
                 if depth != 0:
                     return
@@ -299,6 +310,9 @@ def summarize(fn, exceptional=False, extra_forward=None, roles=None, inline=None
         s.fwd = fwds
         s.calls = calls
         s.end = end
+        # `return c ? a : b`: the CFG already branched on c, so the path knows which arm it returned
+        if ret_term is not None:
+            ret_term = resolve_ternaries(ret_term, cs, roles)
         s.ret = sym.canon(ret_term, roles) if ret_term is not None else None
         s.ret_term = ret_term
         s.cond_terms = meta.get('cond_terms', [])
@@ -317,6 +331,69 @@ def summarize(fn, exceptional=False, extra_forward=None, roles=None, inline=None
 
     run_fn(fn, dict(init_vals or {}), 0, ([], [], [], {}, {}, {}), top_cont)
     return out
+
+
+def resolve_ternaries(t, conds, roles, depth=0):
+    """replace `c ? a : b` sub-terms whose condition the path has already decided (the CFG branches on c before it evaluates the
+    arm) by the arm that was taken"""
+    if not isinstance(t, dict) or depth > 8:
+        return t
+    if t.get('k') == 'cond':
+        known = {}
+        for ct_, tk_ in split_condition(t['c'], True):
+            known[sym.canon(ct_, roles)] = tk_
+        cd = {}
+        for c_, tk_ in conds:
+            cd[c_] = tk_
+        if known and all(k_ in cd for k_ in known):
+            if all(cd[k_] == v_ for k_, v_ in known.items()):
+                return resolve_ternaries(t['t'], conds, roles, depth + 1)
+            if len(known) == 1:
+                return resolve_ternaries(t['f'], conds, roles, depth + 1)
+    out = {}
+    changed = False
+    for kk, vv in t.items():
+        if isinstance(vv, dict):
+            nv = resolve_ternaries(vv, conds, roles, depth + 1)
+            changed = changed or nv is not vv
+            out[kk] = nv
+        elif isinstance(vv, list):
+            nl = [resolve_ternaries(x, conds, roles, depth + 1) if isinstance(x, dict) else x for x in vv]
+            changed = changed or any(a is not b for a, b in zip(nl, vv))
+            out[kk] = nl
+        else:
+            out[kk] = vv
+    return out if changed else t
+
+
+_COMPLEMENT = {'<': '>=', '<=': '>', '>': '<=', '>=': '<', '==': '!=', '!=': '=='}
+
+
+def split_condition(t, taken):
+    """[(atom term, truth)] implied by `t` evaluating to `taken`: conjunctions that hold and disjunctions that do not are split,
+    negations are pushed through; anything else is one atom"""
+    t0 = sym.strip_casts(t)
+    if isinstance(t0, dict) and t0.get('k') == 'un' and t0.get('op') == '!':
+        inner = sym.strip_casts(t0['e'])
+        if isinstance(inner, dict) and inner.get('k') == 'bin' and inner.get('op') in _COMPLEMENT:
+            # the negation of a comparison is the complementary comparison (as the canonical form always had it)
+            comp = dict(inner, op=_COMPLEMENT[inner['op']])
+            return split_condition(comp, taken)
+        return split_condition(t0['e'], not taken)
+    if isinstance(t0, dict) and t0.get('k') == 'bin' and ((t0['op'] == '&&' and taken) or (t0['op'] == '||' and not taken)):
+        return split_condition(t0['l'], taken) + split_condition(t0['r'], taken)
+    # one spelling per fact: ordering comparisons are recorded as strict `<` with a truth value, (in)equalities as `==`
+    #   a <= b  (T)  ==  b < a (F)        a >= b (T)  ==  a < b (F)        a != b (T)  ==  a == b (F)
+    if isinstance(t0, dict) and t0.get('k') == 'bin' and t0.get('op') in ('<=', '>=', '!=', '>'):
+        op = t0['op']
+        if op == '<=':
+            return [(dict(t0, op='<', l=t0['r'], r=t0['l'], lptr=t0.get('rptr'), rptr=t0.get('lptr')), not taken)]
+        if op == '>=':
+            return [(dict(t0, op='<'), not taken)]
+        if op == '>':
+            return [(dict(t0, op='<', l=t0['r'], r=t0['l'], lptr=t0.get('rptr'), rptr=t0.get('lptr')), taken)]
+        return [(dict(t0, op='=='), not taken)]
+    return [(t, taken)]
 
 
 def trace(fn, roles=None, db=None, exceptional=False, limit=3000, init_vals=None):
